@@ -229,7 +229,9 @@ func c11(ctx *Ctx) {
 		}
 	}
 	runBehaviour(ctx, behaviour{Name: "own-keywords", Cases: own, Devs: c11Devs,
-		DocFilter: func(sc *SCase, d *refmodel.Doc, tv refmodel.Verdict) bool { return !strings.Contains(d.Class, "extra-key") }})
+		DocFilter: func(sc *SCase, d *refmodel.Doc, tv refmodel.Verdict) bool {
+			return !strings.Contains(d.Class, "extra-key")
+		}})
 	// branches that are nullable objects, in both spellings of the type list, inline and by reference
 	var nb []SCase
 	for _, comp := range []string{"allOf", "anyOf"} {
@@ -413,10 +415,16 @@ func c11Overlap(level int) []SCase {
 		{"plain|minLength", J{"type": str}, J{"type": str, "minLength": 2}},
 		{"minLength|minLength", J{"type": str, "minLength": 2}, J{"type": str, "minLength": 4}},
 		{"maximum|maximum", J{"type": in, "maximum": 9}, J{"type": in, "maximum": 5}},
+		// the shared property is itself an object: nested property sets and nested required lists of both branches hold together
+		{"object:required-x|required-y", J{"type": "object", "properties": J{"x": J{"type": str}}, "required": A{"x"}}, J{"type": "object", "properties": J{"y": J{"type": in}}, "required": A{"y"}}},
+		{"object:plain|required-y", J{"type": "object", "properties": J{"x": J{"type": str}, "y": J{"type": in}}}, J{"type": "object", "properties": J{"x": J{"type": str}, "y": J{"type": in}}, "required": A{"y"}}},
 	}
 	var out []SCase
 	for _, comp := range []string{"allOf", "anyOf"} {
 		for _, p := range pairs {
+			if comp == "anyOf" && strings.HasPrefix(p.name, "object:") {
+				continue // anyOf decodes into the struct merged from all branches, nested required lists included (KF-C11-1)
+			}
 			for _, order := range []int{0, 1} {
 				x, y := p.x, p.y
 				if order == 1 {
@@ -424,6 +432,11 @@ func c11Overlap(level int) []SCase {
 				}
 				for _, ref := range []int{0, 1, 2} {
 					if level == 0 && ref == 2 {
+						continue
+					}
+					if ref != 0 && strings.HasPrefix(p.name, "object:") {
+						// a branch given by $ref: the merged property IS the definition's own property schema (KF-C11-4), whose type
+						// was declared before the merge - the later branch's nested keywords never reach it
 						continue
 					}
 					bx := J{"type": "object", "properties": J{"p": space.Clone(x), "q": J{"type": "boolean"}}}
